@@ -111,20 +111,20 @@ type qkey struct {
 
 // Layer = one alphabet explored to a depth.
 type Layer struct {
-	Name      string
-	Keys      []qkey   // questions
-	Rej       []qkey   // (name,type) asked under a reject rule (scope ignored)
-	Ttls      []uint32 // values of the upstream TTL switch
-	AllTgts   bool     // clock targets derived from every reference entry (else: from the most recently obtained one)
-	Slack     bool     // include the TTL-approximation instants (obtained+15s, +15s+1ns, +17s)
-	Jan       bool
-	Clone     bool
-	Symmetry  bool // canonical first-use order of types (A before AAAA) and upstreams (u1 before u2)
-	DepthQ    int
-	DepthT    int
-	InitTtl   uint32
-	Prefix    []Op // every history of the layer starts with these operations (depth counts the operations after them)
-	OnlyMax   bool // layer applies only to configurations with a size limit
+	Name     string
+	Keys     []qkey   // questions
+	Rej      []qkey   // (name,type) asked under a reject rule (scope ignored)
+	Ttls     []uint32 // values of the upstream TTL switch
+	AllTgts  bool     // clock targets derived from every reference entry (else: from the most recently obtained one)
+	Slack    bool     // include the TTL-approximation instants (obtained+15s, +15s+1ns, +17s)
+	Jan      bool
+	Clone    bool
+	Symmetry bool // canonical first-use order of types (A before AAAA) and upstreams (u1 before u2)
+	DepthQ   int
+	DepthT   int
+	InitTtl  uint32
+	Prefix   []Op // every history of the layer starts with these operations (depth counts the operations after them)
+	OnlyMax  bool // layer applies only to configurations with a size limit
 }
 
 func product() []qkey {
@@ -144,14 +144,14 @@ func layers() []Layer {
 		// narrow: three questions (two names, a case variant on another upstream), short/long upstream TTL, clock targets of the
 		// most recently obtained answer + pending refreshes, janitor, reload clone — the deepest layer (time semantics, LRU with max_cache_size=2)
 		{Name: "narrow", Keys: []qkey{{"a.", 1, "u1"}, {"b.", 1, "u1"}, {"A.", 1, "u2"}}, Ttls: []uint32{1, 120}, AllTgts: false, Slack: true, Jan: true, Clone: true, DepthQ: 4, DepthT: 6, InitTtl: 1},
-		// star: a base question and every single-coordinate variant of it (case, other name, other type, other upstream, as-is), reject
-		{Name: "star", Keys: []qkey{{"a.", 1, "u1"}, {"A.", 1, "u1"}, {"b.", 1, "u1"}, {"a.", 28, "u1"}, {"a.", 1, "u2"}, {"a.", 1, "asis"}}, Rej: []qkey{{"a.", 1, ""}}, Ttls: []uint32{1, 20, 120}, AllTgts: true, Slack: true, Jan: true, Clone: true, DepthQ: 3, DepthT: 4, InitTtl: 20},
-		// full: the whole product {a., A., b.} x {A, AAAA} x {u1, u2, asis} (up to symmetry), reject of every family
-		{Name: "full", Keys: product(), Rej: []qkey{{"a.", 1, ""}, {"a.", 28, ""}, {"b.", 1, ""}, {"b.", 28, ""}}, Ttls: []uint32{1, 20, 120}, AllTgts: true, Slack: true, Jan: true, Clone: true, Symmetry: true, DepthQ: 2, DepthT: 4, InitTtl: 20},
 		// lru: size-limit configurations only; the cache is pre-filled with three answers (one more than max_cache_size=2) by a
 		// fixed prefix, then every continuation over the narrow alphabet (no TTL switch, no clone)
 		{Name: "lru", Keys: []qkey{{"a.", 1, "u1"}, {"b.", 1, "u1"}, {"A.", 1, "u2"}}, AllTgts: false, Jan: true, DepthQ: 4, DepthT: 5, InitTtl: 1, OnlyMax: true,
 			Prefix: []Op{{Kind: "ask", Name: "a.", Qtype: 1, Scope: "u1"}, {Kind: "ask", Name: "b.", Qtype: 1, Scope: "u1"}, {Kind: "ask", Name: "A.", Qtype: 1, Scope: "u2"}}},
+		// star: a base question and every single-coordinate variant of it (case, other name, other type, other upstream, as-is), reject
+		{Name: "star", Keys: []qkey{{"a.", 1, "u1"}, {"A.", 1, "u1"}, {"b.", 1, "u1"}, {"a.", 28, "u1"}, {"a.", 1, "u2"}, {"a.", 1, "asis"}}, Rej: []qkey{{"a.", 1, ""}}, Ttls: []uint32{1, 20, 120}, AllTgts: true, Slack: true, Jan: true, Clone: true, DepthQ: 3, DepthT: 4, InitTtl: 20},
+		// full: the whole product {a., A., b.} x {A, AAAA} x {u1, u2, asis} (up to symmetry), reject of every family
+		{Name: "full", Keys: product(), Rej: []qkey{{"a.", 1, ""}, {"a.", 28, ""}, {"b.", 1, ""}, {"b.", 28, ""}}, Ttls: []uint32{1, 20, 120}, AllTgts: true, Slack: true, Jan: true, Clone: true, Symmetry: true, DepthQ: 2, DepthT: 4, InitTtl: 20},
 	}
 }
 
@@ -204,14 +204,14 @@ func canonical(h []Op) bool {
 // ---- one execution -------------------------------------------------------------------------------------------
 
 type execOut struct {
-	Viols   []viol
-	Key     string // dedup key
-	Class   string // observation class of the last operation
-	Targets []Op   // clock targets enabled in the reached state
+	Viols    []viol
+	Key      string // dedup key
+	Class    string // observation class of the last operation
+	Targets  []Op   // clock targets enabled in the reached state
 	CanClone bool
-	Stats   map[string]int64
-	Status  string
-	Samples string
+	Stats    map[string]int64
+	Status   string
+	Samples  string
 }
 
 var matcher *control.VerifRouting
@@ -464,17 +464,17 @@ type violOut struct {
 }
 
 type workerOut struct {
-	Cfg     Cfg               `json:"cfg"`
-	Levels  []levelStat       `json:"levels"`
-	States  int64             `json:"states"`
-	Execs   int64             `json:"executions"`
-	Classes map[string]int64  `json:"classes"`
-	Stats   map[string]int64  `json:"stats"`
-	Viols   []violOut         `json:"violations"`
-	Samples []string          `json:"samples"`
-	StateHashes []string      `json:"-"`
-	CapHit  []string          `json:"caps"`
-	Conc    map[string]any    `json:"concurrency,omitempty"`
+	Cfg         Cfg              `json:"cfg"`
+	Levels      []levelStat      `json:"levels"`
+	States      int64            `json:"states"`
+	Execs       int64            `json:"executions"`
+	Classes     map[string]int64 `json:"classes"`
+	Stats       map[string]int64 `json:"stats"`
+	Viols       []violOut        `json:"violations"`
+	Samples     []string         `json:"samples"`
+	StateHashes []string         `json:"-"`
+	CapHit      []string         `json:"caps"`
+	Conc        map[string]any   `json:"concurrency,omitempty"`
 }
 
 const maxViolPerClass = 2
